@@ -8,7 +8,7 @@ from sa.engine.cfg import normally_dominates
 from sa.engine.consts import UNKNOWN
 from sa.engine.context import Ctx
 from sa.engine.guards import atoms, path_conditions
-from sa.engine.loader import AnalysisError, dotted, norm, short, walk_own
+from sa.engine.loader import anorm, local_names, AnalysisError, dotted, norm, short, walk_own
 from sa.engine.report import Finding, RuleReport
 from sa.rules.common import X, raised_class
 
@@ -133,7 +133,9 @@ def rule_round(ctx: Ctx) -> RuleReport:
         rep.unit(fi.key)
         seq = _call_seq(ctx, fi)
         # nr = len(round_keys) - 1
-        nr_ok = any(isinstance(n, ast.Assign) and isinstance(n.targets[0], ast.Name) and n.targets[0].id == "nr" and norm(n.value) == "len(round_keys) - 1" for n in walk_own(fi.node))
+        nr_defs = [n.targets[0].id for n in walk_own(fi.node) if isinstance(n, ast.Assign) and isinstance(n.targets[0], ast.Name) and norm(n.value) == "len(round_keys) - 1"]
+        nr_ok = len(nr_defs) == 1
+        NR = nr_defs[0] if nr_ok else "nr"  # the local holding the number of rounds, whatever it is called
         problems = []
         if not nr_ok:
             problems.append("nr is not len(round_keys) - 1")
@@ -147,16 +149,16 @@ def rule_round(ctx: Ctx) -> RuleReport:
         if kind == "enc":
             if pre != [("ARK", "0")]:
                 problems.append(f"initial step is {pre}, expected AddRoundKey(rk[0])")
-            if rng not in (("1", "nr"),):
+            if rng not in (("1", NR),):
                 problems.append(f"round loop range({', '.join(rng)}), expected range(1, nr)")
             if not (len(body) == 4 and unord(body[:2]) == ["SB", "SR"] and body[2] == ("MC",) and body[3] == ("ARK", var)):
                 problems.append(f"round body {body}, expected SubBytes,ShiftRows (either order), MixColumns, AddRoundKey(rk[{var}])")
-            if not (len(post) == 3 and unord(post[:2]) == ["SB", "SR"] and post[2] == ("ARK", "nr")):
+            if not (len(post) == 3 and unord(post[:2]) == ["SB", "SR"] and post[2] == ("ARK", NR)):
                 problems.append(f"final round {post}, expected SubBytes,ShiftRows,AddRoundKey(rk[nr])")
         else:
-            if pre != [("ARK", "nr")]:
+            if pre != [("ARK", NR)]:
                 problems.append(f"initial step is {pre}, expected AddRoundKey(rk[nr])")
-            if rng not in (("nr - 1", "0", "-1"),):
+            if rng not in ((f"{NR} - 1", "0", "-1"),):
                 problems.append(f"round loop range({', '.join(rng)}), expected range(nr - 1, 0, -1)")
             if not (len(body) == 4 and unord(body[:2]) == ["ISB", "ISR"] and body[2] == ("ARK", var) and body[3] == ("IMC",)):
                 problems.append(f"round body {body}, expected InvShiftRows,InvSubBytes (either order), AddRoundKey(rk[{var}]), InvMixColumns")
@@ -248,21 +250,24 @@ def rule_mix(ctx: Ctx) -> RuleReport:
         rv = loops[0].target.id
         stmts = loops[0].body
         gather = rotate = scatter = None
+        gvar = None
+        others = local_names(fi.node) - {rv}
         for st in stmts:
-            s = norm(st)
-            if isinstance(st, ast.Assign) and isinstance(st.value, ast.ListComp):
-                gather = s
+            if isinstance(st, ast.Assign) and isinstance(st.value, ast.ListComp) and isinstance(st.targets[0], ast.Name):
+                gather = anorm(st, rename=others)
+                gvar = st.targets[0].id
             elif isinstance(st, ast.Assign) and isinstance(st.value, ast.BinOp):
-                rotate = norm(st.value)
+                rotate = st
             elif isinstance(st, ast.For):
-                scatter = norm(st)
+                scatter = anorm(st, rename=others)
         probs = []
-        if gather is None or f"state[{rv} + 4 * col]" not in gather or "range(4)" not in gather:
+        if gather != f"v0 = [state[{rv} + 4 * v1] for v1 in range(4)]":
             probs.append(f"row gather `{gather}` is not state[row + 4*col] over 4 columns (column-major state)")
-        want = f"row_bytes[{rv}:] + row_bytes[:{rv}]" if left else f"row_bytes[-{rv}:] + row_bytes[:-{rv}]"
-        if rotate != want:
-            probs.append(f"rotation `{rotate}`, expected `{want}` ({'left' if left else 'right'} by the row number)")
-        if scatter is None or f"state[{rv} + 4 * col] = row_bytes[col]" not in scatter:
+        want = f"{gvar}[{rv}:] + {gvar}[:{rv}]" if left else f"{gvar}[-{rv}:] + {gvar}[:-{rv}]"
+        rot_txt = norm(rotate.value) if rotate is not None else None
+        if rot_txt != want or norm(rotate.targets[0]) != gvar:
+            probs.append(f"rotation `{rot_txt}`, expected `{want}` ({'left' if left else 'right'} by the row number)")
+        if scatter != f"for v0 in range(4): state[{rv} + 4 * v0] = v1[v0]":
             probs.append(f"row scatter `{scatter}` does not write back state[row + 4*col] = row_bytes[col]")
         if probs:
             for pr in probs:
@@ -274,8 +279,36 @@ def rule_mix(ctx: Ctx) -> RuleReport:
 
 def rule_key(ctx: Ctx) -> RuleReport:
     rep = RuleReport("C20-KEY", "key-schedule guards (FIPS-197 Fig. 11), Nr = Nk + 6, Rcon, xtime polynomial")
-    fi = ctx.p.func(AES, "_expand_key")
-    rep.unit(fi.key)
+    fi0 = ctx.p.func(AES, "_expand_key")
+    rep.unit(fi0.key)
+    import copy as _copy
+    node = _copy.deepcopy(fi0.node)
+    roles: dict[str, str] = {}
+    def _assigned(pred):
+        return [n.targets[0].id for n in ast.walk(node) if isinstance(n, ast.Assign) and len(n.targets) == 1 and isinstance(n.targets[0], ast.Name) and pred(n.value)]
+    nk = _assigned(lambda v: norm(v) == "len(key) // 4")
+    if len(set(nk)) == 1:
+        roles[nk[0]] = "nk"
+        nr = _assigned(lambda v: norm(v) == f"{nk[0]} + 6")
+        if len(set(nr)) == 1:
+            roles[nr[0]] = "nr"
+    for lp in [n for n in node.body if isinstance(n, ast.For) and isinstance(n.target, ast.Name)]:
+        iv0 = lp.target.id
+        for st_ in lp.body:
+            if isinstance(st_, ast.Assign) and len(st_.targets) == 1 and isinstance(st_.targets[0], ast.Name) and isinstance(st_.value, ast.Subscript) and isinstance(st_.value.value, ast.Subscript) \
+                    and isinstance(st_.value.value.value, ast.Name) and norm(st_.value.value.slice) == f"{iv0} - 1":
+                roles[st_.targets[0].id] = "temp"
+                roles[st_.value.value.value.id] = "w"
+        for x in ast.walk(lp):
+            if isinstance(x, ast.Subscript) and isinstance(x.value, ast.Name) and isinstance(x.slice, ast.BinOp) and isinstance(x.slice.op, ast.FloorDiv) and norm(x.slice.left) == iv0:
+                roles[x.value.id] = "rcon"
+    for x in ast.walk(node):
+        if isinstance(x, ast.Name) and x.id in roles:
+            x.id = roles[x.id]
+    class _FI:  # the renamed copy seen through the FuncInfo surface the checks use
+        pass
+    fi = _FI()
+    fi.node, fi.qual, fi.module, fi.key = node, fi0.qual, fi0.module, fi0.key
     src = {norm(n) for n in walk_own(fi.node) if isinstance(n, ast.Assign)}
     for want, msg in (("nk = len(key) // 4", "Nk = key length / 4"), ("nr = nk + 6", "Nr = Nk + 6")):
         if want in src:
@@ -324,7 +357,9 @@ def rule_key(ctx: Ctx) -> RuleReport:
     else:
         rep.fail(Finding("C20-KEY", AES, fi.qual, "missing elif", "the extra SubWord step for 256-bit keys (Nk > 6 and i mod Nk == 4) is missing", line=loop.lineno))
     body_txt = [norm(s) for s in loop.body]
-    if "temp = w[i - 1][:]".replace("i", iv) in body_txt and any(t.startswith("w.append([a ^ b for a, b in zip(w[%s - nk], temp)])" % iv) for t in body_txt):
+    comp_ok = any(isinstance(st_, ast.Expr) and isinstance(st_.value, ast.Call) and norm(st_.value.func) == "w.append" and st_.value.args and isinstance(st_.value.args[0], ast.ListComp)
+                  and anorm(st_.value.args[0]) == "[v0 ^ v1 for v0, v1 in zip(w[%s - nk], temp)]" % iv for st_ in loop.body)
+    if f"temp = w[{iv} - 1][:]" in body_txt and comp_ok:
         rep.ok({"recurrence": "w[i] = w[i-Nk] xor temp, temp = w[i-1]"})
     else:
         rep.fail(Finding("C20-KEY", AES, fi.qual, " ; ".join(body_txt)[:200], "key-schedule recurrence w[i] = w[i-Nk] xor f(w[i-1]) not recognised", line=loop.lineno))
